@@ -8,7 +8,7 @@ CASE_WALL_S = 20
 ID = "C20"
 TIERS = {"quick": dict(examples=12000, parts=dict(parse=9000, transit=2000, dilation=500)),
          "thorough": dict(examples=360000, parts=dict(parse=300000, transit=50000, dilation=12000))}
-PARTS = ["parse", "transit"]
+PARTS = ["parse", "transit", "dilation"]
 RULE = ("Lists of 0-6 JSON objects in hint position: valid direct/tor/relay hints, field-wise mutations of them "
         "(drop a field, replace it by every JSON type, nest, huge/negative/float/bool ports, non-numeric / list / "
         "dict / NaN priorities, unknown and non-string types, relay without `hints`, `hints` of every JSON type, "
